@@ -99,6 +99,31 @@ pub struct Named {
 	pub k: [i16; 2],
 }
 
+/// Shapes with nothing inside: a tuple struct without fields, zero-length
+/// arrays, variants with an empty tuple payload.
+#[derive(Clone, Debug, PartialEq, Serialize, Deserialize)]
+pub struct EmptyTupleStruct();
+
+#[derive(Clone, Debug, PartialEq, Serialize, Deserialize)]
+pub enum EdgeEnum {
+	EmptyTuple(),
+	One(((),)),
+	UnitNewtype(()),
+	Arr0([u8; 0]),
+	Marker(EmptyTupleStruct),
+}
+
+#[derive(Clone, Debug, PartialEq, Serialize, Deserialize)]
+pub struct EdgeShapes {
+	pub a0: [i32; 0],
+	pub m: EmptyTupleStruct,
+	pub v: Vec<[u8; 0]>,
+	pub o: Option<[u8; 0]>,
+	pub e: EdgeEnum,
+	pub t: ((), [String; 0], EmptyTupleStruct),
+	pub k: BTreeMap<String, EmptyTupleStruct>,
+}
+
 #[derive(Clone, Debug, PartialEq, Serialize, Deserialize)]
 pub enum E {
 	Unit,
@@ -281,6 +306,9 @@ pub enum Datum {
 	ATagged(AdjacentlyTagged),
 	Untagged(Untagged),
 	Flattening(Flattening),
+	Arr0([u8; 0]),
+	EmptyTuple(EmptyTupleStruct),
+	Edge(EdgeShapes),
 }
 
 macro_rules! gen_int {
@@ -295,7 +323,26 @@ macro_rules! gen_int {
 	}};
 }
 
+/// Finite doubles with few significant bits: single-precision values widened,
+/// small odd multiples of powers of two (long exact decimal expansions).
+fn gen_sparse_f64(rng: &mut Rng) -> f64 {
+	loop {
+		let x = match rng.below(4) {
+			0 => f32::from_bits(rng.next_u64() as u32) as f64,
+			1 => [0.1f32, 0.2, 0.3, 1.1, 3.14, 1e10, 1e-10, 16777217.0, f32::MAX, f32::MIN_POSITIVE, 1e-45][rng.below(11)] as f64 * if rng.chance(1, 2) { 1.0 } else { -1.0 },
+			2 => (1 + 2 * rng.below(64)) as f64 * 2f64.powi(rng.below(160) as i32 - 80),
+			_ => 2f64.powi(rng.below(2000) as i32 - 1000),
+		};
+		if x.is_finite() {
+			return x;
+		}
+	}
+}
+
 fn gen_f64(rng: &mut Rng) -> f64 {
+	if rng.chance(1, 8) {
+		return gen_sparse_f64(rng);
+	}
 	match rng.below(10) {
 		0 => 0.0,
 		1 => -0.0,
@@ -369,7 +416,7 @@ fn gen_named(rng: &mut Rng, depth: usize) -> Named {
 }
 
 pub fn gen_datum(rng: &mut Rng, depth: usize) -> Datum {
-	let n = if depth >= 3 { 20 } else { 58 };
+	let n = if depth >= 3 { 20 } else { 61 };
 	let short = |rng: &mut Rng| -> usize { [0usize, 1, 1, 1, 2, 3][rng.below(6)] };
 	let sub = |rng: &mut Rng| gen_datum(rng, depth + 1);
 	let len = |rng: &mut Rng| [0, 1, 2, 3, 6][rng.below(5)];
@@ -464,10 +511,27 @@ pub fn gen_datum(rng: &mut Rng, depth: usize) -> Datum {
 			2 => Untagged::W((0..short(rng)).map(|_| gen_int!(rng, u8)).collect()),
 			_ => Untagged::X { only: UnitStruct },
 		}),
-		_ => Datum::Flattening(Flattening {
+		57 => Datum::Flattening(Flattening {
 			id: gen_int!(rng, u32),
 			inner: FlatInner { u: (), n: gen_int!(rng, u8), p: std::marker::PhantomData },
 			opt: [None, Some(-1)][rng.below(2)],
+		}),
+		58 => Datum::Arr0([]),
+		59 => Datum::EmptyTuple(EmptyTupleStruct()),
+		_ => Datum::Edge(EdgeShapes {
+			a0: [],
+			m: EmptyTupleStruct(),
+			v: (0..short(rng)).map(|_| []).collect(),
+			o: [None, Some([])][rng.below(2)],
+			e: match rng.below(5) {
+				0 => EdgeEnum::EmptyTuple(),
+				1 => EdgeEnum::One(((),)),
+				2 => EdgeEnum::UnitNewtype(()),
+				3 => EdgeEnum::Arr0([]),
+				_ => EdgeEnum::Marker(EmptyTupleStruct()),
+			},
+			t: ((), [], EmptyTupleStruct()),
+			k: (0..short(rng)).map(|_| (gen_str(rng), EmptyTupleStruct())).collect(),
 		}),
 	}
 }
@@ -549,6 +613,8 @@ fn c16_one(rep: &mut Report, x: &Datum) {
 	};
 	let sj_text = serde_json::to_string(x).ok();
 	let sj_text_ok = sj_text.as_ref().map(|t| serde_json::from_str::<Datum>(t).ok().as_ref() == Some(x)).unwrap_or(false);
+	// serde_json round-trips the datum through its Value or through its text
+	let sj_ok = sj_ok || (sj.is_ok() && sj_text_ok);
 	if sj_ok {
 		rep.count("data_serde_json_round_trips", 1)
 	} else {
@@ -691,7 +757,7 @@ pub fn run_c16(cfg: &Config) -> i32 {
 		cfg,
 		EvidenceMeta {
 			id: "C16",
-			rule: "a case is an instance of the derive-annotated type family (58 top-level shapes: all integer widths at their bounds, f32/f64 incl. non-finite and subnormal, char, strings that look like numbers, unit, unit/newtype/tuple/named structs, an enum with unit/renamed/newtype/tuple/struct/empty-struct variants, options, tuples, arrays, sequences, newtype structs over sequences / one-element tuples and arrays / options / maps / enums / strings / unit, internally / adjacently tagged and untagged enums and flattened structs with unit-like fields, collect_str and bytes types, maps keyed by String, i8..i64, u8..u64, char, unit-variant enum, integer newtype; recursive nesting) generated from the seed; checked: (1) from_value(to_value(x)) == x whenever serde_json's own Value round trip returns x, (2) to_value(x) has the same JSON shape as serde_json::to_value(x), (3) from_value(from_serde_json(serde_json::to_value(x))) == x, (4) from_value(parse(serde_json::to_string(x))) == x, under the same proviso; plus raw f64/f32 bit patterns through to_value/from_value; distinct by hash of the Debug rendering",
+			rule: "a case is an instance of the derive-annotated type family (61 top-level shapes: all integer widths at their bounds, f32/f64 incl. non-finite and subnormal, char, strings that look like numbers, unit, unit/newtype/tuple/named structs, an enum with unit/renamed/newtype/tuple/struct/empty-struct variants, options, tuples, arrays, sequences, newtype structs over sequences / one-element tuples and arrays / options / maps / enums / strings / unit, internally / adjacently tagged and untagged enums and flattened structs with unit-like fields, zero-length arrays, tuple structs and tuple variants without fields, collect_str and bytes types, maps keyed by String, i8..i64, u8..u64, char, unit-variant enum, integer newtype; recursive nesting) generated from the seed; checked: (1) from_value(to_value(x)) == x whenever serde_json's own Value round trip returns x, (2) to_value(x) has the same JSON shape as serde_json::to_value(x), (3) from_value(from_serde_json(serde_json::to_value(x))) == x, (4) from_value(parse(serde_json::to_string(x))) == x, under the same proviso; plus raw f64/f32 bit patterns through to_value/from_value; distinct by hash of the Debug rendering",
 			exhaustive: false,
 			assumptions: vec![
 				"serde_json 1.0.x with default features is the stated reference; data serde_json itself cannot round-trip (non-finite floats, Some(None), ...) are excluded from the round-trip relations".into(),
@@ -708,6 +774,7 @@ pub fn run_c16(cfg: &Config) -> i32 {
 
 fn gen_f64_sweep(rng: &mut Rng, k: u64) -> f64 {
 	match k % 32 {
+		6 | 7 => gen_sparse_f64(rng),
 		0 => f64::from_bits(rng.next_u64() & 0x800f_ffff_ffff_ffff), // subnormals
 		2 => (rng.next_u64() >> rng.below(64)) as f64,              // integers
 		4 => f64::from_bits(0x7fe0_0000_0000_0000 | rng.next_u64() & 0x801f_ffff_ffff_ffff), // huge
@@ -887,6 +954,22 @@ fn inject_token(rng: &mut Rng, r: &mut RVal) -> bool {
 
 /// Number spellings by lexical class.
 fn gen_c17_number(rng: &mut Rng) -> String {
+	if rng.chance(1, 10) {
+		// doubles with few significant bits, in the three usual renderings
+		let x = gen_sparse_f64(rng);
+		return match rng.below(3) {
+			0 => format!("{:?}", x),
+			1 => format!("{:e}", x),
+			_ => {
+				let s = format!("{}", x);
+				if s.contains('.') || s.len() > 300 {
+					s
+				} else {
+					format!("{}.0", s)
+				}
+			}
+		};
+	}
 	match rng.below(12) {
 		0 => ["0", "-0", "1", "-1", "9223372036854775807", "-9223372036854775808", "9223372036854775808", "18446744073709551615"][rng.below(8)].to_string(),
 		1 => ["18446744073709551616", "-9223372036854775809", "123456789012345678901234567890", "1e5", "1E0", "0e0", "-0e0", "12e+2"][rng.below(8)].to_string(),
@@ -1096,6 +1179,7 @@ fn gen_sj_number(rng: &mut Rng) -> serde_json::Number {
 		4 => serde_json::Number::from_f64([0.0, -0.0, 5e-324, -5e-324, f64::MAX, f64::MIN, f64::MIN_POSITIVE, -f64::MIN_POSITIVE, 1e21, 1e-7, 1e23, 0.1, -1.5e300, -1.3475090132806154e-197, -0.000012345678901234568][rng.below(15)]).unwrap(),
 		5 => serde_json::Number::from_f64(f64::from_bits(rng.next_u64() & 0x800f_ffff_ffff_ffff)).unwrap(),
 		6 => serde_json::Number::from_f64((rng.below(100000) as f64 - 50000.0) / 16.0).unwrap(),
+		7 => serde_json::Number::from_f64(gen_sparse_f64(rng)).unwrap(),
 		_ => loop {
 			let x = f64::from_bits(rng.next_u64());
 			if let Some(n) = serde_json::Number::from_f64(x) {
